@@ -753,6 +753,8 @@ def r9(F, R):
                     out |= sub
         return out or None
 
+    fuzzy_styles = {}
+
     def styles_of(b, restrict=None, depth=0):
         """Names of the `Styles::` methods the routine may call — in its own body and closures, and in the module-private fns it calls;
         a callee that dispatches on a private enum argument (`paint.apply(..)`) contributes only the arms of the variants that argument can
@@ -799,14 +801,35 @@ def r9(F, R):
                         vs = {d[2]["rv"]["variant"]}
                     if vs:
                         sub_restrict[i + 1] = vs
-                out |= styles_of(cb, sub_restrict or None, depth + 1)
+                sub = styles_of(cb, sub_restrict or None, depth + 1)
+                if cb.impl and cb.impl.get("self_adt", "").startswith("writer::basic::") and cb.impl.get("self_adt") != BA and not sub_restrict:
+                    # a method of a module-private type that keeps the choice in a field (`Painter { paint, .. }.apply(s)`): which of its
+                    # styles this caller gets is not visible at this call — remembered apart, never held against the caller
+                    fuzzy_styles.setdefault(b.name, set()).update(sub)
+                    fuzzy_styles.setdefault(F.root_fn(b).name, set()).update(sub)
+                else:
+                    out |= sub
+                    for k_ in (cb.name, F.root_fn(cb).name):
+                        if k_ in fuzzy_styles:
+                            fuzzy_styles.setdefault(b.name, set()).update(fuzzy_styles[k_])
         return out
     owns = [b for b in F.crate_bodies() if own(b) and b.kind in ("Fn", "AssocFn")]
-    printers = {b.name: b for b in owns if prints_directly(b) and b is not disp and styles_of(b) - {"lines_count"} or (prints_directly(b) and b is not disp and
+    printers = {b.name: b for b in owns if prints_directly(b) and b is not disp and ((styles_of(b) | fuzzy_styles.get(b.name, set())) - {"lines_count"}) or (prints_directly(b) and b is not disp and
                                                                                                                   not any(F.callee_body(t, b.crate) is not None and own(F.callee_body(t, b.crate)) for nb in F.nested(b) for _, t in nb.calls()))}
     helpers = [b for b in owns if b.name not in printers and not prints_directly(b)]
-    opq = "^(" + "|".join(re.escape(n) for n in list(printers) + [b.name for b in helpers if not any(F.callee_body(t, b.crate) is not None and F.callee_body(t, b.crate).name in printers
-                                                                                                     for nb in F.nested(b) for _, t in nb.calls())]) + ")$"
+    # helpers stay opaque unless they lead — directly or through other helpers (`background` -> `bg_step_passed` -> `any_step_passed(kind, ..)`) —
+    # to a printing routine
+    leads = set()
+    changed = True
+    while changed:
+        changed = False
+        for hb in helpers:
+            if hb.name in leads:
+                continue
+            if any(F.callee_body(t, hb.crate) is not None and (F.callee_body(t, hb.crate).name in printers or F.callee_body(t, hb.crate).name in leads) for nb in F.nested(hb) for _, t in nb.calls()):
+                leads.add(hb.name)
+                changed = True
+    opq = "^(" + "|".join(re.escape(n) for n in list(printers) + [hb.name for hb in helpers if hb.name not in leads]) + ")$"
     dp = D.Deep(F, disp, inline_only=own, opaque=opq, max_paths=4000)
     rows = dp.run()
     if not rows or any(p.cut for p in rows):
@@ -843,7 +866,8 @@ def r9(F, R):
             if ok:
                 pb = printers[next(iter(names))]
                 st = styles_of(pb)
-                ok = must in st and not (st & never)
+                fz = fuzzy_styles.get(pb.name, set())
+                ok = must in (st | fz) and not (st & never)
                 why = f"it is printed by {pb.short.rsplit('::', 1)[-1]}, which uses the styles {sorted(st - {'lines_count', 'bold', 'bright'})} (expected `{must}`, never {sorted(never)})"
             if ok:
                 for pc, p in full:
@@ -951,13 +975,33 @@ def r9(F, R):
                         except Exception:
                             continue
                         out += [(m.group(1).decode("utf-8"), m.group(2)) for m in GLYPH.finditer(raw)]
+                    elif c is not None and const_str_(op) is not None:
+                        out += [(m.group(1).decode("utf-8"), m.group(2)) for m in GLYPH.finditer(const_str_(op).encode("utf-8"))]
+            for _, t_ in nb.calls():
+                for a_ in t_["args"]:
+                    if const_str_(a_) is not None:
+                        out += [(m.group(1).decode("utf-8"), m.group(2)) for m in GLYPH.finditer(const_str_(a_).encode("utf-8"))]
         return out
     n_mk = 0
+    from .mir import const_str as const_str_
+    serves = {}
+    for (kind, sub), lst in seen.items():
+        if kind in ("Background", "Step") and sub in STYLE:
+            for nm in {pc[0][1] for pc, early, _ in lst if not early and len(pc) == 1}:
+                serves.setdefault(nm, set()).add(kind)
     for (kind, sub), lst in sorted(seen.items(), key=str):
         if kind not in ("Background", "Step") or sub not in STYLE:
             continue
         for nm in sorted({pc[0][1] for pc, early, _ in lst if not early and len(pc) == 1}):
             mk = markers(printers[nm])
+            if serves.get(nm) == {"Background", "Step"}:
+                # one routine prints both kinds and picks the marker by a parameter: it must know both markers (which call gets which is
+                # the `match kind` inside; not separated here)
+                n_mk += bool(mk)
+                both = {m for _, m in mk} == {b"> ", b"  "}
+                R.check(both, f"terminal/step-kind-marker/{kind}::{sub}", printers[nm], "the shared printer knows both markers",
+                        f"`{printers[nm].short.rsplit('::', 1)[-1]}` prints Background and Step lines but knows only the marker(s) {[g + m.decode() for g, m in mk]}")
+                continue
             want = b"> " if kind == "Background" else b"  "
             n_mk += bool(mk)
             R.check(bool(mk) and all(m == want for _, m in mk), f"terminal/step-kind-marker/{kind}::{sub}", printers[nm],
